@@ -53,6 +53,8 @@ Second group (`translate_objects`): the small functions around the parsed zones,
                                     `_nullcontext`; either way what `fobj.read()` yields, or the exception of open/read); `self._s` (only
                                     used by __repr__) is not kept; `self._vtz = {}` must precede the `with`; the body of the `with` must be
                                     `self._parse_rfc(fobj.read())`
+  tzrange._dst_base_offset          the property returns `self._dst_base_offset_`; the statement of `tzrange.__init__` that sets it
+                                    (`self._dst_offset - self._std_offset`, a timedelta subtraction) is translated with it
 Third group (`translate_factory_inits`, tz/_factories.py): the metaclass constructors `_TzSingleton.__init__`, `_TzOffsetFactory.__init__`,
 `_TzStrFactory.__init__` as the initial shared state `Fact.Glob` of the factory machine (C18): `weakref.WeakValueDictionary()` = the
 empty weak map, `OrderedDict()` = the empty strong cache, the integer literal = its capacity, `_thread.allocate_lock()` = a free lock,
@@ -640,6 +642,28 @@ def translate_tzical_init(tree):
     return text, {"tzical.__init__": hashlib.sha256(ast.dump(fn).encode()).hexdigest()[:16]}
 
 
+def translate_dst_base_offset(tree):
+    init = find_function(tree, "tzrange.__init__")
+    found = False
+    for st in init.body:
+        if isinstance(st, ast.Assign) and len(st.targets) == 1 and isinstance(st.targets[0], ast.Attribute) and st.targets[0].attr == "_dst_base_offset_":
+            v = st.value
+            found = isinstance(v, ast.BinOp) and isinstance(v.op, ast.Sub) and all(isinstance(x, ast.Attribute) and isinstance(x.value, ast.Name) and x.value.id == "self" for x in (v.left, v.right)) \
+                and v.left.attr == "_dst_offset" and v.right.attr == "_std_offset"
+    if not found: raise Untranslatable("tzrange.__init__: self._dst_base_offset_ = self._dst_offset - self._std_offset")
+    fn = find_function(tree, "tzrange._dst_base_offset")
+    body = [st for st in fn.body if not (isinstance(st, ast.Expr) and isinstance(st.value, ast.Constant))]
+    ok = [a.arg for a in fn.args.args] == ["self"] and len(body) == 1 and isinstance(body[0], ast.Return) and isinstance(body[0].value, ast.Attribute) \
+        and isinstance(body[0].value.value, ast.Name) and body[0].value.value.id == "self" and body[0].value.attr == "_dst_base_offset_" \
+        and any(isinstance(d, ast.Name) and d.id == "property" for d in fn.decorator_list)
+    if not ok: raise Untranslatable("tzrange._dst_base_offset shape")
+    text = ("/-- translated from `tzrange.__init__`, the statement `self._dst_base_offset_ = self._dst_offset - self._std_offset` (timedeltas in microseconds) -/\n"
+            "def tzrange_initDstBaseOffset (self__dst_offset : Int) (self__std_offset : Int) : Py.R Int :=\n  RfcPy.tdSub self__dst_offset self__std_offset\n\n"
+            "/-- translated from the property `tzrange._dst_base_offset` -/\n"
+            "def tzrange_dstBaseOffsetProp (self__dst_base_offset_ : Int) : Py.R Int :=\n  .ok self__dst_base_offset_\n")
+    return text, {"tzrange._dst_base_offset": hashlib.sha256((ast.dump(fn) + ast.dump(init)).encode()).hexdigest()[:16]}
+
+
 def translate_common_helpers(common):
     """`enfold` and `tzname_in_python2`: module-level / interpreter-dependent branches are decided the way this interpreter decides them"""
     import datetime as _dt, six
@@ -728,7 +752,9 @@ def translate_files(src_root, groups):
     fps.update(fps4)
     text5, fps5 = translate_tzical_init(tree)
     fps.update(fps5)
-    return text + "\n" + text2 + "\n" + text3 + "\n" + text4 + "\n" + text5, fps
+    text6, fps6 = translate_dst_base_offset(tree)
+    fps.update(fps6)
+    return text + "\n" + text2 + "\n" + text3 + "\n" + text4 + "\n" + text5 + "\n" + text6, fps
 
 
 RFC_GROUPS = [("tz/tz.py", ["tzical._parse_rfc"])]
